@@ -446,6 +446,10 @@ int32_t jls_core_rd_chunk(struct jls_core_s * self) {
         self->chunk_cur.offset = jls_raw_chunk_tell(self->raw);
         int32_t rc = jls_raw_rd(self->raw, &self->chunk_cur.hdr, (uint32_t) self->buf->alloc_size, self->buf->start);
         if (rc == JLS_ERROR_TOO_BIG) {
+            struct jls_bkf_s * backend = jls_raw_backend(self->raw);
+            if ((NULL != backend) && (((int64_t) self->chunk_cur.hdr.payload_length) > backend->fend)) {
+                return JLS_ERROR_IO;  // corrupt header: the payload cannot be inside this file
+            }
             // payload + pad + CRC32 on disk
             ROE(jls_buf_realloc(self->buf, ((size_t) self->chunk_cur.hdr.payload_length) + 16));
         } else if (rc == 0) {
